@@ -12,7 +12,7 @@ IMPORTS = "From Ford Require Import Base.Str Doc.Meta Doc.Admon Corr.C03doc."
 PROPS_FILE = "theories/Props/C03doc.v"
 BUILD_TARGETS = ["theories/Corr/C03doc.vo", "theories/Props/C03doc.vo"]
 THEOREMS = ["C03_meta_split", "C03_meta_shape", "C03_meta_no_header", "C03_meta_header", "C03_meta_header_fenced",
-            "C03_read_metadata_split", "C03_read_metadata_oneline",
+            "C03_read_metadata_split", "C03_read_metadata_oneline", "C03_meta_rescan_not_identity",
             "C03_admon_words", "C03_admon_total", "C03_admon_split_words", "C03_pretext_fixed",
             "C03_inside_word_fixed",
             "C03_admon_errors", "C03_admon_end_without_start", "C03_admon_end_type_mismatch",
@@ -235,6 +235,8 @@ def check_entity(d, got):
     for k, v in d["meta"].items():
         if got["meta"].get(k) != v:
             probs.append(("metadata-not-set", {"key": k, "expected": v, "got": got["meta"].get(k)}))
+    if got["doc"] is None:
+        return probs            # not rendered through markdown (enumerators): words and metadata only
     if d.get("inside"):
         # support for C03_admon_indent: the first paragraph of a top-level box is rendered inside a box
         import bs4
@@ -265,7 +267,7 @@ def part_e2e(chk):
     rng = chk.rng
     quick = chk.tier == "quick"
     nproj = 150 if quick else 3000
-    kinds, nent, nmiss = {}, 0, 0
+    kinds, nent, nmiss, known_hits, nshared = {}, 0, 0, 0, 0
     for pi in range(nproj):
         knobs = {"pretext": True} if pi % 5 == 4 else {}
         files, expected = G.gen_doc_project(rng, knobs)
@@ -277,7 +279,8 @@ def part_e2e(chk):
             continue
         for key, d in expected.items():
             nent += 1
-            for k in d["kinds"]:
+            nshared += d.get("shared", 1) > 1
+            for k in d["kinds"] + (["style%d" % d["style"]] if "style" in d else []):
                 kinds[k] = kinds.get(k, 0) + 1
             chk.count(("e2e", tuple(d["lines"])), nontrivial=len(d["lines"]) > 1,
                       sample={"entity": list(key), "doc_lines": d["lines"]} if "box:next" in d["kinds"] else None)
@@ -289,10 +292,14 @@ def part_e2e(chk):
             if not probs:
                 continue
             chk.disagreements += 1
+            if d.get("region") and all(p[0] == "words" for p in probs) and chk.known(d["region"], True):
+                known_hits += 1
+                continue
             chk.violation("failing-input",
                           {"what": "rendered documentation of an entity does not carry its comment's words exactly "
                                    "once and in order / metadata not split off", "part": "e2e", "entity": list(key),
-                           "doc_lines": d["lines"], "problems": probs, "html": got["doc"], "files": files}, True)
+                           "doc_lines": d["lines"], "style": d.get("style"), "shared_by": d.get("shared", 1),
+                           "problems": probs, "html": got["doc"], "files": files}, True)
     # unmatched end markers must raise, not drop text silently
     nerr = 0
     for _ in range(6 if quick else 60):
@@ -305,7 +312,68 @@ def part_e2e(chk):
             chk.violation("failing-input", {"what": "an unmatched end marker (%s) did not raise" % why, "part": "e2e",
                                             "files": files, "result": str(out)[:500]}, True)
     chk.extra["e2e"] = {"projects": nproj, "entities": nent, "entities_not_found": nmiss, "block_kinds": kinds,
+                        "entities_sharing_a_comment": nshared, "known_region_entities": known_hits,
                         "error_docs": nerr}
+
+
+# ---------------------------------------------------------------- C2. one comment, several declared variables
+def shared_inputs(chk):
+    rng = chk.rng
+    quick = chk.tier == "quick"
+    corpus = [["deprecated: true", "", "Caution: words", "more"], ["author: me", "display: private", "", "Note: x"],
+              ["Note: one line"], ["author: me"], ["version: 1", "    continued", "", "body"], ["plain text", "k: v"]]
+    for c in corpus:
+        for style in range(4):
+            yield c, 3, style
+    pool = [l for l in G.META_ALPHA if l.strip() and not l.startswith(("---", "...", "\t"))]
+    for _ in range(120 if quick else 3000):
+        n = rng.randint(1, 5)
+        lines = []
+        for i in range(n):
+            lines.append(rng.choice(pool) if rng.random() < 0.75 else rng.choice(["", "Word: text", "tw: tw tw"]))
+        # leading / trailing empty doc lines depend on the marker style (reader half): keep the comment solid
+        while lines and not lines[0].strip():
+            lines.pop(0)
+        while lines and not lines[-1].strip():
+            lines.pop()
+        if lines:
+            yield [l.strip() if not l.startswith("    ") else l for l in lines], rng.choice([2, 2, 3, 4]), rng.randrange(4)
+
+
+def part_shared(chk):
+    """The variables of one declaration share its comment: each must get read_metadata of the WHOLE comment
+    (FORD scans in place, so each variable needs its own copy of the lines)."""
+    fields = I.entity_fields()
+    cases, terms = [], []
+    for lines, nvars, style in shared_inputs(chk):
+        if not ascii_ok(lines):
+            continue
+        kind, recs = I.run_shared_decl(lines, nvars, style, stmt="integer")
+        chk.count(("shared", tuple(lines), nvars, style), nontrivial=True,
+                  sample={"doc_lines": lines, "nvars": nvars, "style": style, "impl": recs} if len(cases) == 3 else None)
+        if kind != "ok" or len(recs) != nvars:
+            chk.violation("failing-input", {"what": "a documented declaration of several variables was not parsed into "
+                                            "that many documented variables", "part": "meta", "doc_lines": lines,
+                                            "nvars": nvars, "style": style, "impl": str(recs)[:600]}, True)
+            continue
+        delivered = recs[0][1]
+        cases.append((lines, nvars, style, recs))
+        rs = coq_list(f"({coq_meta(m)}, {coq_list(coq_str(x) for x in left)})" for _, _, m, left in recs)
+        terms.append(f"(FIELDS, {coq_list(coq_str(x) for x in delivered)}, {rs})")
+    defs = f"Definition FIELDS : list str := {coq_list(coq_str(f) for f in fields)}."
+    out = chk.coq_judge(IMPORTS, "list str * list str * list (mdict * list str)", "judge_shared", terms,
+                        shard=200, defs=defs)
+    if out is not None:
+        chk.traces += len(cases)
+        for idx, code in sorted(out.items()):
+            lines, nvars, style, recs = cases[idx]
+            found = bool(code & 2)
+            report(chk, "failing-input" if found else "broken-correspondence",
+                   {"what": ("the variables of one declaration do not all get the metadata and the body of their shared "
+                             "comment") if found else "read_metadata of a shared comment vs model",
+                    "part": "meta", "doc_lines": lines, "nvars": nvars, "style": style,
+                    "impl": [list(r) for r in recs], "code": code}, found)
+    chk.extra["shared"] = {"cases": len(cases)}
 
 
 # ---------------------------------------------------------------- D. repaired defects: regression witnesses
@@ -356,6 +424,12 @@ def part_regressions(chk):
         chk.violation("failing-input", {"what": "consecutive boxes are nested again (doc-line-after-box-indented "
                                         "returned)", "part": "admon", "lines": lines, "impl": r, "html": html}, True)
     chk.extra["regression_witnesses"] = res
+    # open finding doc-oneline-colon-alt-block: replay its witness
+    kind, out = I.run_doc_project({"src/a.f90": "module m\n  implicit none\n  integer :: x\n    !* Note: alt one line\n\n"
+                                                "  integer :: y\n    !! Note: plain one line\nend module m\n"})
+    still = kind == "ok" and "one line" not in out[("variable", "x", "m")]["text"] \
+        and "one line" in out[("variable", "y", "m")]["text"]
+    chk.known("doc-oneline-colon-alt-block", still)
 
 
 # ---------------------------------------------------------------- E. pattern fingerprints
@@ -392,6 +466,7 @@ def run_part(chk):
     part_admon(chk)
     part_meta(chk)
     part_e2e(chk)
+    part_shared(chk)
     part_regressions(chk)
     flush_deferred(chk)
 
@@ -419,6 +494,14 @@ def replay(chk, rep):
         out = chk.coq_judge(IMPORTS, "nat * list str * list str * mdict * list str", "judge_meta", [term], defs=defs)
         print("judge code:", (out or {}).get(0, 0))
         return 1 if out else 0
+    if part == "meta" and "nvars" in rep:      # a shared comment (part_shared)
+        kind, recs = I.run_shared_decl(rep["doc_lines"], rep["nvars"], rep.get("style", 0))
+        print("impl:", kind, recs)
+        if kind != "ok" or len(recs) != rep["nvars"]:
+            return 1
+        same = all((m, left) == (recs[0][2], recs[0][3]) for _, _, m, left in recs)
+        print("all variables get the same metadata and body:", same)
+        return 0 if same else 1
     if part == "e2e":
         kind, out = I.run_doc_project(rep["files"])
         if kind == "err":
